@@ -20,7 +20,8 @@
 (*            (units of 1e-12 relative) are judged                                              *)
 (*   fitlaw : a law instance on real bspline.fit calls with float data: agreement with the      *)
 (*            independent dense least squares ("lstsq"), zero-weight invariance ("zw"),         *)
-(*            linearity ("lin"), polynomial reproduction ("poly"); the harness measures the     *)
+(*            linearity ("lin"), polynomial reproduction ("poly"), and the same on objects whose  *)
+(*            breakpoints had been dropped ("masked", "masked-poly"); the harness measures the  *)
 (*            discrepancy (units of 1e-9 of the data scale), the support class comes from here  *)
 (*   run    : a history of fit calls on knots that cannot be abstracted (coincident knots)       *)
 EXTENDS BSplineFit, Json, IOUtils, SequencesExt
@@ -50,18 +51,27 @@ CholWhy(r) ==
      ELSE IF r.resL <= Tol /\ r.resX <= Tol THEN "" ELSE "residual above tolerance"
 
 SupportOfRec(r) == [nord |-> r.nord, S |-> r.S, pc |-> r.pc]
+(* r.mask: the good knots of the object the fits were made on (all knots unless breakpoints had been   *)
+(* dropped before); the spline space, its support class and "determined" are those of the mask.        *)
+(* r.bdisc: measured inconsistency of action() / bsplvn() / value() with the Cox-de Boor basis of the  *)
+(* masked knot vector (partition of unity included); demanded whatever the status.                     *)
 LawWhy(r) ==
   LET P == SupportOfRec(r)
-      all == AllKnots(P)
-      cls == FitClass(P, all)
-  IN IF ~SupportOK(P) THEN "harness: bad support abstraction"
+      mk == ToSet(r.mask)
+      cls == FitClass(P, mk)
+  IN IF ~SupportOK(P) \/ ~(EndKnots(P) \subseteq mk /\ mk \subseteq AllKnots(P)) THEN "harness: bad support abstraction"
      ELSE IF r.exc # "" THEN "exception"
+     ELSE IF r.bdisc > r.tol THEN "basis / value() inconsistent with the masked knot vector"
      ELSE IF \E k \in 1..Len(r.st) : r.st[k] \notin cls.allowed THEN "status not admissible"
      ELSE IF ~r.finite THEN "non-finite coefficients"
      ELSE IF \E k \in 1..Len(r.st) : r.st[k] # 0 THEN ""
-     ELSE IF ~Determined(P, all) THEN ""                \* status 0 on an undetermined system: nothing to compare
+     ELSE IF ~cls.determined THEN ""                     \* status 0 on an undetermined system: nothing to compare
+     ELSE IF ~r.condok THEN ""                           \* determined but numerically singular (measured condition number)
      ELSE IF r.law = "zw" /\ ~(ToSet(r.altered) \subseteq ToSet(r.zeroidx)) THEN "harness: altered a weighted point"
      ELSE IF r.disc <= r.tol THEN "" ELSE "discrepancy above tolerance"
+(* was the optimum actually compared? (counted by the harness so that the masked instances cannot be vacuous) *)
+LawCompared(r) == r.kind = "fitlaw" /\ r.exc = "" /\ r.finite /\ (\A k \in 1..Len(r.st) : r.st[k] = 0)
+                  /\ r.condok /\ FitClass(SupportOfRec(r), ToSet(r.mask)).determined
 
 (* a history whose knots cannot be abstracted to a support problem (coincident knots: all good data at *)
 (* one abscissa): only what the statement demands of every fit is judged - documented status, finite   *)
@@ -77,7 +87,7 @@ WhyOf(r) == IF r.kind = "chol" THEN CholWhy(r) ELSE IF r.kind = "run" THEN RunWh
 RInit == /\ i \in 1..Len(Input)
          /\ why = WhyOf(Input[i])
          /\ ok = (why = "")
-         /\ tid = 0 /\ pos = 0
+         /\ tid = (IF Input[i].kind = "fitlaw" /\ why = "" /\ LawCompared(Input[i]) THEN -1 ELSE 0) /\ pos = 0
          /\ prob = [nord |-> 1, S |-> 1, pc |-> <<0, 0, 0>>, maxfits |-> 0]
          /\ bkmask = {} /\ status = NoFit /\ nfits = 0 /\ phase = "parked"
 RNext == UNCHANGED tvars
